@@ -60,3 +60,8 @@ fn class_matches(pattern: &str, class: &str) -> bool {
         Some((pre, post)) => class.len() >= pre.len() + post.len() && class.starts_with(pre) && class.ends_with(post),
     }
 }
+
+/// The open findings listed for `property`: (class pattern, description).
+pub fn open_for(property: &str) -> Vec<(String, String)> {
+    FINDINGS.get().map(|l| l.iter().filter(|f| f.status == "open" && f.property == property).map(|f| (f.class.clone(), f.description.clone())).collect()).unwrap_or_default()
+}
